@@ -1002,6 +1002,9 @@ def judge_C04(c):
         if s.res in FATAL:
             break
         g = s.g
+        if s.al:
+            out.append(fail(c, i, "after %s: input_buffer_allocate / output_buffer_allocate (trait or VecResampler) do not return nbr_channels() "
+                            "vectors of input_frames_max() / output_frames_max() frames (or that capacity when not filled)" % s.op, cls))
         if g and (g[1] > g[0] or g[3] > g[2]):
             out.append(fail(c, i, "after %s: input_frames_next %d / max %d, output_frames_next %d / max %d" % (s.op, g[1], g[0], g[3], g[2]), cls))
         elif g and low_in_max is not None and (g[1] > low_in_max or g[3] > low_out_max):
